@@ -427,8 +427,35 @@ def far_thin_family():
     return out
 
 
+def corner_piece_family():
+    """deterministic: touching pairs of two *short* panels of very different length with the same time interval -- a leaf
+    and a space half / quarter of its finer neighbour across the corner between the short and the long side of the
+    L-shape (parameter 2) and across an interior root line; ratios 8 and 16 (leaves alone reach at most 4)"""
+    spec = {'kind': 'param', 'curve': 'LShape', 'ts': [0.0, 1.0], 'xs': None}       # roots 0,1,2,4,6,7,8
+    out = []
+    for lt in (6, 5):
+        # leaf [2, 2 + 2/2^lxA] on the long side, leaf [2 - 1/2^lxB, 2] on the short side
+        for lxA, lxB in ((5, 6), (4, 5), (5, 5)):
+            A = [2, lxA, 0, 0, lt, 0]
+            B = [1, lxB, (1 << lxB) - 1, 0, lt, 0]
+            for piece in ('x1', 'q1', 'q3'):
+                out.append({'fam': 'two_boxes', 'spec': spec, 'A': A, 'B': B, 'piece': ['trial', piece]})
+                out.append({'fam': 'two_boxes', 'spec': spec, 'A': B, 'B': A, 'piece': ['test', piece]})
+    return out
+
+
 def realise_two(case):
     spec = case['spec']
+    if case.get('piece'):
+        live, test, trial, reason = realise_two(dict(case, piece=None))
+        if reason:
+            return live, test, trial, reason
+        which, kind = case['piece']
+        if which == 'trial':
+            trial = make_piece(live, trial, kind)
+        else:
+            test = make_piece(live, test, kind)
+        return live, test, trial, None
     probe = Live(spec)
 
     def mk(b):
